@@ -48,7 +48,7 @@ type DrvCase struct {
 }
 
 func (c DrvCase) names() []string {
-	if c.Dialect == "postgres" {
+	if c.Dialect == "postgres" || c.Dialect == "cockroach" {
 		return []string{"public", "app"}
 	}
 	return []string{"dev", "other"}
@@ -125,6 +125,7 @@ type mockDB struct {
 	fks           map[string][]string
 	defaultSchema string
 	pg            bool
+	crdb          bool // CockroachDB: the schema public cannot be dropped
 	bound         string
 	problems      []string
 	applied       []string
@@ -260,6 +261,9 @@ func (m *mockDB) ApplyChanges(ctx context.Context, changes []schema.Change, opts
 			delete(m.cat[sc], t)
 		case reDropSchema.MatchString(stmt):
 			sc := reDropSchema.FindStringSubmatch(stmt)[1]
+			if m.crdb && sc == "public" {
+				return fmt.Errorf("pq: cannot drop schema \"public\" (CockroachDB)")
+			}
 			delete(m.cat, sc)
 			for k := range m.deps {
 				if strings.HasPrefix(k, sc+".") {
@@ -313,14 +317,27 @@ func openDriver(dialect string, m *mockDB) (migrate.Snapshoter, func(), error) {
 		return nil, nil, err
 	}
 	switch dialect {
-	case "postgres":
-		mk.ExpectQuery("SELECT current_setting").WillReturnRows(sqlmock.NewRows([]string{"a", "b", "c"}).AddRow("150000", "heap", nil))
+	case "postgres", "cockroach":
+		var crdbVersion any
+		if dialect == "cockroach" {
+			crdbVersion = "v23.1.0"
+		}
+		mk.ExpectQuery("SELECT current_setting").WillReturnRows(sqlmock.NewRows([]string{"a", "b", "c"}).AddRow("150000", "heap", crdbVersion))
 		drv, err := postgres.Open(db)
 		if err != nil {
 			db.Close()
 			return nil, nil, err
 		}
 		d, ok := drv.(*postgres.Driver)
+		if !ok && dialect == "cockroach" {
+			// for CockroachDB Open wraps the driver in an unexported struct that hides the Lock method;
+			// the *Driver inside is the one the restore functions belong to.
+			v := reflect.New(reflect.TypeOf(drv)).Elem()
+			v.Set(reflect.ValueOf(drv))
+			f := v.Field(0)
+			inner := reflect.NewAt(f.Type(), unsafe.Pointer(f.UnsafeAddr())).Elem().Interface()
+			d, ok = inner.(*postgres.Driver)
+		}
 		if !ok {
 			db.Close()
 			return nil, nil, fmt.Errorf("postgres.Open returned %T", drv)
@@ -368,7 +385,7 @@ func EvalDriver(c DrvCase) (problems []string, outcome string) {
 			init[names[i]]["precious_"+names[i]] = true
 		}
 	}
-	m := &mockDB{cat: init.clone(), deps: map[string]bool{}, fks: map[string][]string{}, pg: c.Dialect == "postgres", defaultSchema: names[0]}
+	m := &mockDB{cat: init.clone(), deps: map[string]bool{}, fks: map[string][]string{}, pg: c.Dialect == "postgres" || c.Dialect == "cockroach", crdb: c.Dialect == "cockroach", defaultSchema: names[0]}
 	if c.Bound {
 		m.bound = names[0]
 	}
@@ -493,15 +510,18 @@ func EvalDriver(c DrvCase) (problems []string, outcome string) {
 
 func drvCases() []DrvCase {
 	var cs []DrvCase
-	for _, d := range []string{"mysql", "postgres"} {
+	for _, d := range []string{"mysql", "postgres", "cockroach"} {
 		for s0 := 0; s0 < 3; s0++ {
 			for s1 := 0; s1 < 3; s1++ {
+				if d == "cockroach" && s0 == 0 {
+					continue // CockroachDB has no database without the schema public (it cannot be dropped)
+				}
 				for _, b := range []bool{false, true} {
 					for rp := 0; rp < 32; rp++ {
 						if b && rp&^25 != 0 {
 							continue // a bound connection replays into its own schema only
 						}
-						if rp&8 != 0 && (rp&17 == 0 || d != "postgres") {
+						if rp&8 != 0 && (rp&17 == 0 || d == "mysql") {
 							continue // the dependent object hangs off a replayed table; modelled for PostgreSQL
 						}
 						cs = append(cs, DrvCase{Dialect: d, State: []int{s0, s1}, Bound: b, Replay: rp})
